@@ -171,6 +171,7 @@ func checkFunc(fset *token.FileSet, name string, body *ast.BlockStmt, st *lemmaS
 							reported[sig] = true
 							viols = append(viols, vlib.Violation{Clause: "C08.lock-lemma", Sig: "C08.lock-lemma:" + sig, Detail: fmt.Sprintf("%s: a path reaches %s (%s) while the same lock is still held (held: %s)", name, fset.Position(o.pos), o.key, held(h))})
 						}
+						continue // (not counted twice: a loop that re-acquires would make the state space infinite)
 					}
 					if strings.HasSuffix(o.key, "/R") && h[o.key] > 0 {
 						// a second RLock by the same goroutine while still holding the first (e.g. a loop 'continue' that skips RUnlock)
